@@ -106,6 +106,10 @@ def apply_value(st, fv, args, kwargs, n=None):
             return call_contract(st, c, args, kwargs, n)
         recv = f.recv
         first = next(iter(c.params.values()), None)
+        if recv.t.kind == 'typeobj' and (first is None or first.kind != 'typeobj'):
+            first_name = next(iter(c.params.keys()), None)
+            if first_name != 'self':
+                return call_contract(st, c, args, kwargs, n)      # staticmethod reached through the class
         if first is not None and first.kind == 'typeobj' and recv.t.kind == 'ref':
             recv = Val(T.TYPEOBJ, FnV('class', recv.t.name))      # classmethod called through an instance
         return call_contract(st, c, [recv] + args, kwargs, n)
